@@ -1016,28 +1016,36 @@ func main() {
 	}
 	// the behaviour of the emitted codecs: checks/c03 has just run on the same corpus and generator as
 	// a part of this property (run.sh: VERIF_REPORT_AS=C16) and reported its violations itself
-	if b, err := os.ReadFile(filepath.Join(common.Root(), "evidence", "C16.codec.json")); err == nil {
+	for _, part := range [][3]string{
+		{"C16.codec.json", "emitted_codec_behaviour", "round trips and schema conformance of the codecs emitted for the corpus (the C03 exploration, run on this generator)"},
+		{"C16.calls.json", "emitted_proxy_and_dispatcher_behaviour", "calls through the emitted proxies and dispatchers, TARS- and TUP-versioned (the value and TUP-dispatch scenarios of the C01 exploration, run on this generator)"},
+	} {
+		b, err := os.ReadFile(filepath.Join(common.Root(), "evidence", part[0]))
+		if err != nil {
+			continue
+		}
 		var ev struct {
 			Tier     string         `json:"tier"`
 			Coverage map[string]any `json:"coverage"`
 		}
-		if json.Unmarshal(b, &ev) == nil && ev.Tier == run.Tier {
-			num := func(k string) int64 { f, _ := ev.Coverage[k].(float64); return int64(f) }
-			part := map[string]any{"rule": "round trips and schema conformance of the codecs emitted for the corpus (the C03 exploration, run on this generator)"}
-			for _, k := range []string{"states", "transitions", "traces_validated_against_impl", "evaluations", "distinct_nontrivial"} {
-				part[k] = num(k)
-				switch x := cov[k].(type) {
-				case int64:
-					cov[k] = x + num(k)
-				case int:
-					cov[k] = int64(x) + num(k)
-				}
-			}
-			if ex, _ := ev.Coverage["exhaustive"].(bool); !ex {
-				cov["exhaustive"] = false
-			}
-			cov["emitted_codec_behaviour"] = part
+		if json.Unmarshal(b, &ev) != nil || ev.Tier != run.Tier {
+			continue
 		}
+		num := func(k string) int64 { f, _ := ev.Coverage[k].(float64); return int64(f) }
+		p := map[string]any{"rule": part[2]}
+		for _, k := range []string{"states", "transitions", "traces_validated_against_impl", "evaluations", "distinct_nontrivial"} {
+			p[k] = num(k)
+			switch x := cov[k].(type) {
+			case int64:
+				cov[k] = x + num(k)
+			case int:
+				cov[k] = int64(x) + num(k)
+			}
+		}
+		if ex, _ := ev.Coverage["exhaustive"].(bool); !ex {
+			cov["exhaustive"] = false
+		}
+		cov[part[1]] = p
 	}
 	if !pb.complete {
 		run.Note("malformed-input enumeration stopped at the internal deadline: %d of %d cases run", inproc, pb.total)
